@@ -123,7 +123,9 @@ func (c *FnCtx) setGhost(k string, v Val) {
 			c.writes[c.wblk()] = map[string]bool{}
 		}
 		c.writes[c.wblk()]["ghost:"+k] = true
-		return
+		if !strings.HasPrefix(k, "lastret ") {
+			return
+		}
 	}
 	ng := map[string]Val{}
 	for a, b := range c.ghost {
@@ -432,6 +434,7 @@ func (c *FnCtx) atomicCall(name string, cc *ssa.CallCommon, args []Val, setRes f
 	vt := l.ty
 	inv := c.atomicInvFor(p)
 	cur := Val{T: c.loadLoc(l, c.heap), Ty: vt}
+	c.assume(c.typeFact(cur.T, vt)) // a value read from memory carries its type's range
 	if inv != nil {
 		// interference: the value read is arbitrary but satisfies the invariant
 		hv := c.havocVal(vt, "atomic")
